@@ -16,10 +16,21 @@ import (
 func selftestDeterminism(args []string) {
 	fs := flag.NewFlagSet("selftest-determinism", flag.ExitOnError)
 	n := fs.Int("n", 70, "seeds per engine/profile")
+	only := fs.String("only", "", "restrict to engine/prop/mode entries containing this text")
 	fs.Parse(args)
-	type ep struct{ engine, prop, mode string }
-	eps := []ep{{"hist", "C05", ""}, {"hist", "C07", ""}, {"hist", "C08", ""}, {"hist", "C11", ""}, {"hist", "C01", ""}, {"hist", "C11", "tornsweep:3/32"},
-		{"fault", "C04", ""}, {"fault", "C01", ""}, {"sched", "C10", ""}, {"cli", "C15", ""}}
+	type ep struct{ engine, prop, mode, bin string }
+	eps := []ep{{"hist", "C05", "", ""}, {"hist", "C07", "", ""}, {"hist", "C08", "", ""}, {"hist", "C11", "", ""}, {"hist", "C01", "", ""}, {"hist", "C11", "tornsweep:3/32", ""},
+		{"fault", "C04", "", ""}, {"fault", "C01", "", ""}, {"sched", "C10", "", ""}, {"cli", "C15", "", ""},
+		{"hist", "C05", "clock", "fg"}, {"hist", "C01", "panicinj", "fg"}}
+	if *only != "" {
+		var keep []ep
+		for _, e := range eps {
+			if strings.Contains(e.engine+"/"+e.prop+"/"+e.mode, *only) {
+				keep = append(keep, e)
+			}
+		}
+		eps = keep
+	}
 	bad := 0
 	total := 0
 	var mu sync.Mutex
@@ -36,7 +47,7 @@ func selftestDeterminism(args []string) {
 				seed := runSeed(batchSeed()^0xd37, e.engine+e.mode, e.prop+"/selftest", i)
 				var logs []string
 				for _, mp := range []int{1, 4, 16} {
-					spec := batchSpec{Engine: e.engine, Prop: e.prop, Mode: e.mode, MaxProcs: mp}
+					spec := batchSpec{Engine: e.engine, Prop: e.prop, Mode: e.mode, MaxProcs: mp, Bin: e.bin}
 					res, stderr, err := spawnRun(spec, "quick", seed, "", true, 300*time.Second)
 					if err != nil {
 						mu.Lock()
